@@ -67,6 +67,14 @@ pub struct Broker {
     pub custom: Option<Custom>,
     pub ctag_counter: u32,
     pub server_properties: FieldTable,
+    /// merged into every `s2c` record while set (e.g. the id of the message being sent)
+    pub extra: Option<Value>,
+    /// channels whose default-policy replies are withheld until `release`
+    pub hold: std::collections::HashSet<u16>,
+    pub held: Vec<(u16, AMQPFrame)>,
+    in_default: bool,
+    /// frames handed to the transport so far (handshake included)
+    pub frames_sent: u64,
 }
 
 impl Broker {
@@ -86,6 +94,11 @@ impl Broker {
             custom: None,
             ctag_counter: 0,
             server_properties: sp,
+            extra: None,
+            hold: std::collections::HashSet::new(),
+            held: Vec::new(),
+            in_default: false,
+            frames_sent: 0,
         }
     }
 
@@ -102,10 +115,27 @@ impl Broker {
 
     /// Sends a frame to the client (logged as an `s2c` record).
     pub fn send(&mut self, reply: &mut Reply, frame: AMQPFrame) {
+        if self.in_default {
+            let ch = match &frame {
+                AMQPFrame::Method(ch, _) | AMQPFrame::Header(ch, _, _) | AMQPFrame::Body(ch, _)
+                | AMQPFrame::Heartbeat(ch) => *ch,
+                AMQPFrame::ProtocolHeader => 0,
+            };
+            if self.hold.contains(&ch) {
+                self.held.push((ch, frame));
+                return;
+            }
+        }
         let bytes = wire::encode(&frame);
+        self.frames_sent += 1;
         if self.cfg.log_frames {
             let mut d = wire::describe(&frame, bytes.len());
             d["ev"] = json!("s2c");
+            if let (Some(Value::Object(x)), Some(o)) = (&self.extra, d.as_object_mut()) {
+                for (k, v) in x {
+                    o.insert(k.clone(), v.clone());
+                }
+            }
             gev(d);
         }
         reply.bytes.extend_from_slice(&bytes);
@@ -118,6 +148,7 @@ impl Broker {
     /// Sends raw bytes (already framed or deliberately not); `what` describes them in the
     /// trace.
     pub fn send_raw(&mut self, reply: &mut Reply, bytes: &[u8], what: Value) {
+        self.frames_sent += 1;
         if self.cfg.log_frames {
             let mut d = what;
             d["ev"] = json!("s2c");
@@ -152,7 +183,33 @@ impl Broker {
         }
     }
 
+    /// Sends the withheld replies of channel `ch` (all of them, or only the oldest).
+    pub fn release(&mut self, reply: &mut Reply, ch: u16, only_first: bool) -> usize {
+        let mut n = 0;
+        let mut rest = Vec::new();
+        let held = std::mem::take(&mut self.held);
+        let saved = self.in_default;
+        self.in_default = false;
+        for (c, f) in held {
+            if c == ch && !(only_first && n > 0) {
+                self.send(reply, f);
+                n += 1;
+            } else {
+                rest.push((c, f));
+            }
+        }
+        self.in_default = saved;
+        self.held = rest;
+        n
+    }
+
     fn default_policy(&mut self, frame: &AMQPFrame, reply: &mut Reply) {
+        self.in_default = true;
+        self.default_policy_inner(frame, reply);
+        self.in_default = false;
+    }
+
+    fn default_policy_inner(&mut self, frame: &AMQPFrame, reply: &mut Reply) {
         let (ch, class) = match frame {
             AMQPFrame::Method(ch, class) => (*ch, class),
             _ => return,
